@@ -117,10 +117,11 @@ Definition reset (s : dstate) : dstate :=
 Definition zlen (l : list byte) : Z := Z.of_nat (length l).
 Definition ztake (n : Z) (l : list byte) : list byte := firstn (Z.to_nat n) l.
 Definition zdrop (n : Z) (l : list byte) : list byte := skipn (Z.to_nat n) l.
-Definition rd32 (l : list byte) : Z := le_val (ztake 4 l).
-Definition rd64 (l : list byte) : Z := le_val (ztake 8 l).
 Definition err (e : Z) : Z := - e.
 Definition u64 (x : Z) : Z := x mod 18446744073709551616.
+(* LZ4F_readLE32 / LZ4F_readLE64 return U32 / U64 *)
+Definition rd32 (l : list byte) : Z := u32 (le_val (ztake 4 l)).
+Definition rd64 (l : list byte) : Z := u64 (le_val (ztake 8 l)).
 (* memcpy(buf + off, data, |data|) on a buffer of which [0,off) is meaningful *)
 Definition wr (buf : list byte) (off : Z) (data : list byte) : list byte :=
   firstn (Z.to_nat off) (buf ++ repeat 0 (Z.to_nat off)) ++ data.
@@ -244,6 +245,24 @@ Inductive fin := FStop (hint : Z) | FRet (v : Z) | FFuel.
 Record dres := mkR { r_consumed : Z; r_produced : Z; r_out : list byte; r_ret : Z; r_fuel : bool }.
 Record infores := mkI { i_consumed : Z; i_info : option finfo; i_ret : Z; i_fuel : bool }.
 
+(* history management for linked blocks (LZ4F_updateDict, abstracted) *)
+Definition upd_link (s : dstate) (piece : list byte) : dstate :=
+  if linked s then set_hist s (upd_hist (d_hist s) piece) else s.
+(* content checksum and remaining size after a block was decoded (1909-1912, 1954-1957) *)
+Definition upd_decoded (s : dstate) (c : list byte) : dstate :=
+  let fi := d_fi s in
+  let s := if negb (fi_ccFlag fi =? 0) && negb (d_skip s) then set_xxh s (d_xxh s ++ c) else s in
+  if fi_contentSize fi =? 0 then s else set_remaining s (u64 (d_remaining s - zlen c)).
+
+(* bookkeeping after [piece] (n bytes) of an uncompressed block went to dst (1772-1785) *)
+Definition upd_copy (s : dstate) (piece : list byte) (n : Z) : dstate :=
+  let fi := d_fi s in
+  let s := if d_skip s then s else
+           let s := if fi_bcFlag fi =? 0 then s else set_bxxh s (d_bxxh s ++ piece) in
+           if fi_ccFlag fi =? 0 then s else set_xxh s (d_xxh s ++ piece) in
+  let s := if fi_contentSize fi =? 0 then s else set_remaining s (u64 (d_remaining s - n)) in
+  upd_link s piece.
+
 Section WithBlockDecoder.
   Variable bdec : list byte -> list byte -> option (list byte).
 
@@ -313,21 +332,15 @@ Section WithBlockDecoder.
 
   (* case dstage_copyDirect *)
   Definition do_copyDirect (o : dopts) (l : lst) : lst * outcome :=
-    let fi := d_fi (l_s l) in
     let '(l, n) :=
       if o_dstnull o then (l, 0) else
       let s := l_s l in
       let n := Z.min (d_tmpInTarget s) (Z.min (zlen (l_src l)) (l_cap l)) in
       let piece := ztake n (l_src l) in
-      let s := if d_skip s then s else
-               let s := if fi_bcFlag fi =? 0 then s else set_bxxh s (d_bxxh s ++ piece) in
-               if fi_ccFlag fi =? 0 then s else set_xxh s (d_xxh s ++ piece) in
-      let s := if fi_contentSize fi =? 0 then s else set_remaining s (u64 (d_remaining s - n)) in
-      let s := if linked s then set_hist s (upd_hist (d_hist s) piece) else s in
-      (adv (emit (with_s l s) piece n) n, n) in
+      (adv (emit (with_s l (upd_copy s piece n)) piece n) n, n) in
     let s := l_s l in
     if n =? d_tmpInTarget s then
-      if fi_bcFlag fi =? 0 then (with_s l (set_stage s GetBlockHeader), Continue)
+      if fi_bcFlag (d_fi s) =? 0 then (with_s l (set_stage s GetBlockHeader), Continue)
       else (with_s l (set_stage (set_tmpInSize s 0) GetBlockChecksum), Continue)
     else
       let s := set_tmpInTarget s (d_tmpInTarget s - n) in
@@ -358,7 +371,7 @@ Section WithBlockDecoder.
       let s := l_s l in
       let n := Z.min (zlen (d_tmpOut s) - d_tmpOutStart s) (l_cap l) in
       let piece := ztake n (zdrop (d_tmpOutStart s) (d_tmpOut s)) in
-      let s := if linked s then set_hist s (upd_hist (d_hist s) piece) else s in
+      let s := upd_link s piece in
       let s := set_tmpOutStart s (d_tmpOutStart s + n) in
       emit (with_s l s) piece n in
     let s := l_s l in
@@ -384,11 +397,10 @@ Section WithBlockDecoder.
     match dec with
     | None => (with_s l s, Ret (err FD_ERR_decompressionFailed))
     | Some c =>
-      let s := if negb (fi_ccFlag fi =? 0) && negb (d_skip s) then set_xxh s (d_xxh s ++ c) else s in
-      let s := if fi_contentSize fi =? 0 then s else set_remaining s (u64 (d_remaining s - zlen c)) in
+      let s := upd_decoded s c in
       if d_maxBlock s <=? l_cap l then
         (* decode directly into dst *)
-        let s := if linked s then set_hist s (upd_hist (d_hist s) c) else s in
+        let s := upd_link s c in
         (emit (with_s l (set_stage s GetBlockHeader)) c (zlen c), Continue)
       else
         (* decode into tmpOut, then flush *)
